@@ -17,7 +17,7 @@ _T = [
     "C18_layers_step_reject_unchanged", "C18_layers_rejected_calls_invisible",
 ]
 THEOREMS = ["Mesa.Layers." + t for t in _T]
-COUNTS = {"quick": 6000, "thorough": 60000}
+COUNTS = {"quick": 6000, "thorough": 150000}
 TRUSTED = [
     "numpy: np.copyto / np.where / np.vectorize / ufuncs / np.logical_and / masked max,min / np.where->zip apply the "
     "element-wise function point-wise, in row-major order, without changing dtype on the values used (bool 0/1, small ints, "
